@@ -84,7 +84,7 @@ PROPS = {
         theorems=[],
         streams=[stream('union', 'whole', kinds=('union',), faults=0.3)],
         k2=['union'], k2_n=(80, 800),
-        k2_also=[('bounds', 'CopyClone', (30, 200))],
+        k2_also=[('bounds', 'CopyClone', (30, 200)), ('bounds', 'UnionWhere', (20, 150)), ('bounds', 'Default', (40, 300)), ('bounds', 'Eq', (30, 200))],
         direct=[('c20', (1500, 20000)), ('stratified', (2000, 15000), dict(pool=['Debug', 'PartialEq', 'Hash', 'Clone', 'Copy', 'Default', 'Eq'], kinds=('union',), key='c20s')), ('rejections', (1500, 15000), dict(pool=['Debug', 'PartialEq', 'Hash', 'Clone', 'Copy', 'Default', 'Eq'], kinds=('union',), key='c20r'))],
     ),
     'C09': dict(
